@@ -193,3 +193,29 @@ pub fn arg<'a>(args: &'a [String], name: &str) -> Option<&'a str> {
 pub fn arg_u64(args: &[String], name: &str, default: u64) -> u64 {
     arg(args, name).map(|s| s.parse().expect("number")).unwrap_or(default)
 }
+
+
+/// Hang attribution: when `VERIF_PROGRESS` names a file, every operation is appended to it (and
+/// flushed) *before* it is executed; a line that starts a new script (`create …` / `new …`) truncates
+/// the file first.  If the process never returns (deadlock, endless loop), the caller's watchdog kills
+/// it and finds the script that hung in that file.
+pub fn progress(line: &str) {
+    use std::io::Write as _;
+    static FILE: std::sync::Mutex<Option<(String, Option<std::fs::File>)>> = std::sync::Mutex::new(None);
+    let mut g = FILE.lock().unwrap_or_else(|e| e.into_inner());
+    if g.is_none() {
+        *g = Some((std::env::var("VERIF_PROGRESS").unwrap_or_default(), None));
+    }
+    let (path, file) = g.as_mut().unwrap();
+    if path.is_empty() {
+        return;
+    }
+    let fresh = line.starts_with("create ") || line.starts_with("new ") || line.starts_with("load ");
+    if fresh || file.is_none() {
+        *file = std::fs::OpenOptions::new().create(true).write(true).truncate(true).open(&*path).ok();
+    }
+    if let Some(f) = file.as_mut() {
+        let _ = writeln!(f, "{}", line);
+        let _ = f.flush();
+    }
+}
